@@ -316,7 +316,7 @@ func dupAt(s []string, i int) []string {
 }
 
 // hostileTails are fragments that leave the lexer in the middle of something when the input ends right behind them.
-var hostileTails = []string{"\"", "\"abc", "\"\"", "\"a\"", "[", "[2", "[2..", "[2..3", "[ ", "<", "<A", "<A \"", "<A \"x", "<L", "<L <", "//", "/", "// c", ".", "..", "...", "...[", "...[1",
+var hostileTails = []string{"[]", "[..]", "[ ]", "[x]", "[-3]", "[1..2]", "[3]", "\"", "\"abc", "\"\"", "\"a\"", "[", "[2", "[2..", "[2..3", "[ ", "<", "<A", "<A \"", "<A \"x", "<L", "<L <", "//", "/", "// c", ".", "..", "...", "...[", "...[1",
 	"-", "+", "0x", "0b", "1e", "1e+", "1.", "\\", "\xc3", "\xe4\xb8", "\x00", "S", "S1", "S1F", "S1F1", "S1F1 W", "S1F1 [W", "S1F1 H-", "S1F1 H<-", "S1F1 H->E", "W", "[W", "x", "x[", "x[1", "T", "é", ">"}
 
 // genHostileTail renders valid messages, ends the text right behind some token - with raised weight behind a closing
